@@ -1457,7 +1457,7 @@ static void c20_after(Run &run) {
 // ---------------------------------------------------------------------------------------------
 // C14: any single allocation failure is survived cleanly
 // ---------------------------------------------------------------------------------------------
-struct C14Ref { bool valid = false; uint64_t seed = 0; std::vector<std::string> per_req; };
+struct C14Ref { bool valid = false; uint64_t seed = 0; std::vector<std::string> per_req, ident; };
 static C14Ref g_c14_ref;
 static std::string c14_req_shape(const Req &r) {
   if (!r.accepted) return "-";
@@ -1569,7 +1569,7 @@ static void c14_end(Run &run) {
   for (auto &v : run.viol) if (v.prop == "C01") { v.prop = "C14"; v.oracle = "ledger_" + v.oracle; }
   if (reference) {
     g_c14_ref = C14Ref(); g_c14_ref.valid = true; g_c14_ref.seed = run.cfg.seed;
-    for (auto &r : run.reqs) g_c14_ref.per_req.push_back(c14_req_shape(r));
+    for (auto &r : run.reqs) { g_c14_ref.per_req.push_back(c14_req_shape(r)); g_c14_ref.ident.push_back(std::to_string(r.kind) + "|" + r.name + "|" + std::to_string(r.qtype) + "|" + std::to_string(r.family) + "|" + std::to_string(r.ai_flags)); }
     return;
   }
   if (g_alloc.failed) run.note("allocation_failure_delivered");
@@ -1579,8 +1579,15 @@ static void c14_end(Run &run) {
     const Req &r = run.reqs[i];
     if (!r.accepted || r.cb_count == 0 || r.status != ARES_SUCCESS) continue;
     if (g_c14_ref.per_req[i].compare(0, 7, "SUCCESS") != 0) continue;
+    // requests issued from callbacks shift the numbering once histories diverge: compare like with like only
+    if (g_c14_ref.ident[i] != std::to_string(r.kind) + "|" + r.name + "|" + std::to_string(r.qtype) + "|" + std::to_string(r.family) + "|" + std::to_string(r.ai_flags)) continue;
+    run.note("success_shape_compared");
     std::string now = c14_req_shape(r);
-    if (now != g_c14_ref.per_req[i]) { run.note("success_shape_differs"); if (run.cfg.knob("strict_shape")) run.violate("C14", "success_with_different_result", "request " + std::to_string(i) + " (" + req_kind_name[r.kind] + " " + r.name + ") reports success with [" + now + "] but without the allocation failure it gives [" + g_c14_ref.per_req[i] + "]"); break; }
+    // an AF_UNSPEC address lookup whose A or AAAA half failed legitimately returns the other half (as for any other failure of one half)
+    // an AF_UNSPEC address lookup legitimately returns whichever of its A / AAAA halves succeeded (as for any other failure of
+    // one half, and the first success stops the retries of the other): either execution may lack either half
+    if ((r.kind == K_GETADDRINFO || r.kind == K_GETHOSTBYNAME) && r.family == AF_UNSPEC) { if (now != g_c14_ref.per_req[i]) run.note("success_partial_family"); continue; }
+    if (now != g_c14_ref.per_req[i]) { run.note("success_shape_differs"); if (getenv("SIM_DBG_C14")) fprintf(stderr, "C14 shape seed=%llu sub=%lld req %zu %s %s: now [%s] ref [%s]\n", (unsigned long long)run.cfg.seed, (long long)run.cfg.knob("fail_at"), i, req_kind_name[r.kind], r.name.c_str(), now.c_str(), g_c14_ref.per_req[i].c_str()); if (run.cfg.knob("strict_shape", 1)) run.violate("C14", "success_with_different_result", "request " + std::to_string(i) + " (" + req_kind_name[r.kind] + " " + r.name + ") reports success with [" + now + "] but without the allocation failure it gives [" + g_c14_ref.per_req[i] + "]"); break; }
   }
 }
 
@@ -1602,7 +1609,19 @@ void profile_attach_more(Run &run) {
   auto prev_after = run.after_step;
   run.after_step = [prev_after, p](Run &r) { if (prev_after) prev_after(r); c06_after(r); if (r.cfg.mode == 0) c10_after(r); };
   if (p == "C09") run.at_end = c09_end;
-  if (p == "C14") { run.at_end = c14_end; run.before_destroy = c14_before_destroy; run.extra_step = c14_config_steps; }
+  if (p == "C14") {
+    run.at_end = c14_end; run.before_destroy = c14_before_destroy; run.extra_step = c14_config_steps;
+    // behaviour fixed per question (not per attempt or server): a retry caused by the injected failure must meet the same
+    // server behaviour as the original transmission did in the failure-free execution, or the differential would be noise
+    run.world_ready.push_back([](Run &r) {
+      (void)r;
+      W.beh_override = [](const Tx &t) -> int {
+        if (t.msg.qd.empty()) return -1;
+        Rng br(hash_mix(hash_str(W.beh_key ^ 0xC14, t.qname_lc), (uint64_t)t.msg.qd[0].type));
+        return br.pick(W.beh_weights);
+      };
+    });
+  }
   if (p == "C17") {
     run.at_end = c17_end;
     run.extra_step = [](Run &r, const Step &s) {
